@@ -518,6 +518,16 @@ fn other_rows() -> Vec<Row> {
             let mut h = dp(doc); let x = g_str(r); h.set_description(&x);
             let got = d(&h.description()); put_edited(h.to_string()); (d(&Some(x)), got, false)
         }, |doc| { d(&dp(doc).description()) }),
+        // git-format-patch spelling: the description lives in Subject, the author in From
+        Row { view: "dep3::PatchHeader(Subject)", name: "description", field: "Subject", base: "Subject: old short\n old long\n", old: "old short\n old long",
+            setget: |doc, r| { let mut h = dp(doc); let x = g_str(r); h.set_description(&x); let got = d(&h.description()); put_edited(h.to_string()); (d(&Some(x)), got, false) },
+            get: |doc| d(&dp(doc).description()) },
+        Row { view: "dep3::PatchHeader(Subject)", name: "long_description", field: "Subject", base: "Subject: old short\n old long\n", old: "old short\n old long",
+            setget: |doc, r| { let mut h = dp(doc); let x = ["long text", "two\nlines"][r.below(2)].to_string(); h.set_long_description(&x); let got = d(&h.long_description()); put_edited(h.to_string()); (d(&Some(x)), got, false) },
+            get: |doc| d(&dp(doc).long_description()) },
+        Row { view: "dep3::PatchHeader(From)", name: "author", field: "From", base: "From: Old <o@e.org>\n", old: "Old <o@e.org>",
+            setget: |doc, r| { let mut h = dp(doc); let x = g_people(r)[0].clone(); h.set_author(&x); let got = d(&h.author()); put_edited(h.to_string()); (d(&Some(x)), got, false) },
+            get: |doc| d(&dp(doc).author()) },
         own_row!("dep3::PatchHeader", "long_description", "Description", "old short\n old long", |doc, r| {
             let mut h = dp(doc); let x = ["long text", "two\nlines"][r.below(2)].to_string(); h.set_long_description(&x);
             let got = d(&h.long_description()); put_edited(h.to_string()); (d(&Some(x)), got, false)
@@ -561,7 +571,8 @@ fn prior(row: &Row, state: usize) -> (String, bool) {
         // the field exists by construction: vary what surrounds it
         let body = match state {
             0 | 1 => lead.to_string(),
-            2 => format!("# before\n{}# after\n{}", lead, o1),
+            // (the comment stands inside the paragraph: a view that owns a single paragraph has no file-level comments)
+            2 => format!("{}# before\n{}# after\n{}", o2, lead, o1),
             3 => format!("{}{}{}", o1, lead, o2),
             4 => format!("{}{}{}", lead, o1, o2),
             _ => format!("{}{}", o2, lead),
